@@ -180,6 +180,19 @@ Theorem C11_vectorized_batch_is_leading_dim : forall sp o t,
 Proof. exact obs_to_tensor_batch_is_leading_dim. Qed.
 Print Assumptions C11_vectorized_batch_is_leading_dim.
 
+(* Dict entries: reshape((-1, *space.shape)) yields a batch size exactly when the element count is a multiple of the positive
+   per-observation element count, and then it is the quotient *)
+Theorem C11_reshape_batch_spec : forall sp o b,
+  reshape_batch sp o = Some b <-> 0 < prodZ (space_shape sp) /\ prodZ o = b * prodZ (space_shape sp).
+Proof. exact reshape_batch_spec. Qed.
+Print Assumptions C11_reshape_batch_spec.
+
+(* create_mlp: the output layer (and its pre-linear modules) takes the last hidden width, or input_dim when net_arch is empty *)
+Theorem C11_mlp_output_layer : forall i o arch b npre npost, 0 < o ->
+  exists pre, mlp_body i o arch b npre npost = pre ++ repeat (LPre (last arch i)) npre ++ [LLinear (last arch i) o b].
+Proof. exact mlp_output_layer. Qed.
+Print Assumptions C11_mlp_output_layer.
+
 (* ---- non-vacuity ---- *)
 Example C11_ex :
   predict_shape (SBox [3; 36; 36] true) [2] [5; 36; 36; 3] = Some [5; 2] /\
